@@ -66,6 +66,45 @@ func (e *SpecEnv) TrBool(x ast.Expr) (T, error) {
 	return t, nil
 }
 
+// closeSide universally closes the side facts (codec facts instantiated per use) that were produced while translating
+// the body of a quantifier and mention its bound variable: they hold for every value of it.
+func (e *SpecEnv) closeSide(from int, bv T) {
+	for i := from; i < len(e.ex.side); i++ {
+		if mentionsSym(e.ex.side[i].S, bv.S) {
+			e.ex.side[i] = mk(SBool, "(forall ((%s %s)) %s)", bv.S, bv.Sort, e.ex.side[i].S)
+		}
+	}
+}
+
+func mentionsSym(s, sym string) bool {
+	for i := 0; ; {
+		j := strings.Index(s[i:], sym)
+		if j < 0 {
+			return false
+		}
+		end := i + j + len(sym)
+		if end >= len(s) || !(s[end] == '_' || (s[end] >= '0' && s[end] <= '9') || (s[end] >= 'a' && s[end] <= 'z') || (s[end] >= 'A' && s[end] <= 'Z')) {
+			return true
+		}
+		i = end
+	}
+}
+
+// boolIfDefined translates x; ok is false when x mentions a path ghost (res_*, it_*) that is not defined on the
+// current path. Every other translation error is re-raised.
+func (e *SpecEnv) boolIfDefined(x ast.Expr) (t T, ok bool) {
+	defer func() {
+		if r := recover(); r != nil {
+			if se, isSE := r.(specErr); isSE && (strings.Contains(se.Error(), "unknown identifier res_") || strings.Contains(se.Error(), "unknown identifier it_")) {
+				t, ok = T{}, false
+				return
+			}
+			panic(r)
+		}
+	}()
+	return e.wantBool(x), true
+}
+
 func exprString(x ast.Expr) string { return types.ExprString(x) }
 
 var nilT = T{S: "nil", Sort: "Nil"}
@@ -378,9 +417,29 @@ func (e *SpecEnv) selector(x *ast.SelectorExpr) T {
 	return T{}
 }
 
+// mapGet returns the stored value and the presence condition of key k in map m (state e.cur).
+func (e *SpecEnv) mapGet(m T, mt *types.Map, k T) (T, T) {
+	_, d, _, vh, ks, vs := e.cur.mapHeaps(mt)
+	if k.Sort != ks {
+		sfail("map key has sort %s, want %s", k.Sort, ks)
+	}
+	dom := Select(d, m, fmt.Sprintf("(Array %s Bool)", ks))
+	vals := Select(vh, m, fmt.Sprintf("(Array %s %s)", ks, vs))
+	present := And(Not(Eq(m, IntLit(0))), Select(dom, k, SBool))
+	return WithGo(Select(vals, k, vs), mt.Elem()), present
+}
+
 func (e *SpecEnv) index(x *ast.IndexExpr) T {
 	// slice indexing a[i]
 	a := e.tr(x.X)
+	if a.Go != nil {
+		if mt, ok := a.Go.Underlying().(*types.Map); ok {
+			// m[k] as Go evaluates it: the stored value, or the zero value when k is absent (or m is nil)
+			k := e.tr(x.Index)
+			v, present := e.mapGet(a, mt, k)
+			return WithGo(Ite(present, v, e.ex.ZeroOf(mt.Elem())), mt.Elem())
+		}
+	}
 	i := e.wantInt(x.Index)
 	if a.Sort == SSlice && a.Go != nil {
 		if sl, ok := a.Go.Underlying().(*types.Slice); ok {
@@ -459,7 +518,13 @@ func (e *SpecEnv) call(x *ast.CallExpr) T {
 		if e.cur.pcHas(Not(a)) {
 			return Bool(true) // antecedent is refuted on this path: the consequent need not even be well-defined here
 		}
-		return Implies(a, e.wantBool(x.Args[1]))
+		b, defined := e.boolIfDefined(x.Args[1])
+		if !defined {
+			// the consequent speaks about a call result / iterator that does not exist on this path: the clause
+			// can only hold here if the antecedent is false (sound: a stronger obligation, never a weaker one)
+			return Not(a)
+		}
+		return Implies(a, b)
 	case "iff":
 		return Eq(e.wantBool(x.Args[0]), e.wantBool(x.Args[1]))
 	case "ite":
@@ -511,6 +576,8 @@ func (e *SpecEnv) call(x *ast.CallExpr) T {
 		e.ex.fresh++
 		bv := T{S: fmt.Sprintf("q_%s_%d", iv.Name, e.ex.fresh), Sort: SInt}
 		c.bound[iv.Name] = bv
+		nside := len(e.ex.side)
+		defer e.closeSide(nside, bv)
 		var guard T = Bool(true)
 		var body T
 		if len(x.Args) == 4 {
@@ -530,6 +597,8 @@ func (e *SpecEnv) call(x *ast.CallExpr) T {
 		e.ex.fresh++
 		bv := T{S: fmt.Sprintf("q_%s_%d", iv.Name, e.ex.fresh), Sort: SBytes}
 		c.bound[iv.Name] = bv
+		nside := len(e.ex.side)
+		defer e.closeSide(nside, bv)
 		body := c.wantBool(x.Args[1])
 		return mk(SBool, "(forall ((%s Bytes)) %s)", bv.S, body.S)
 	case "state":
@@ -628,6 +697,18 @@ func (e *SpecEnv) call(x *ast.CallExpr) T {
 		return e.cur.traceN
 	case "traceAt":
 		return Select(e.cur.trace, e.wantInt(x.Args[0]), "Ev")
+	case "has":
+		// has(m, k): key k is present in map m
+		m := e.tr(x.Args[0])
+		if m.Go == nil {
+			sfail("has: first argument must be a map")
+		}
+		mt, ok := m.Go.Underlying().(*types.Map)
+		if !ok {
+			sfail("has: first argument must be a map")
+		}
+		_, present := e.mapGet(m, mt, e.tr(x.Args[1]))
+		return present
 	case "putstore":
 		// putstore(state, "store", storeTerm): replace one whole module store of a State term
 		stt := e.tr(x.Args[0])
